@@ -220,10 +220,13 @@ def collect(repo):
                 walk(fn_node.body)
             visit(tree.body, '', None, None)
     # disambiguate duplicate keys (same nested name twice in one function)
+    # (ordinal in source order, so that keys survive line shifts: `airyai.h#1`, `airyai.h#2`, …)
     seen = collections.Counter(f.key for f in funcs)
-    for f in funcs:
+    ordinal = collections.Counter()
+    for f in sorted(funcs, key=lambda f: (f.file, f.node.lineno, f.node.col_offset)):
         if seen[f.key] > 1:
-            f.key = '%s@L%d' % (f.key, f.node.lineno)
+            ordinal[f.key] += 1
+            f.key = '%s#%d' % (f.key, ordinal[f.key])
     return funcs, modules
 
 # ----------------------------------------------------------------------------------------------
@@ -711,7 +714,7 @@ class Program:
 
 def lean_name(key):
     mod, q = key.split(':')
-    s = (mod + '_' + q).replace('.', '_').replace('@', '_')
+    s = (mod + '_' + q).replace('.', '_').replace('#', '_n')
     s = re.sub(r'[^A-Za-z0-9_]', '_', s)
     return 'skel_' + s
 
@@ -750,7 +753,31 @@ def main():
     ap.add_argument('--repo', default='/repo/mpmath')
     ap.add_argument('--out', default=os.path.join(here, '..', 'lean', 'Gen'))
     ap.add_argument('--quiet', action='store_true')
+    ap.add_argument('--baseline', default=None, help='also write the baseline file (harness/prec_baseline.json)')
     a = ap.parse_args()
+    r = extract(a.repo, a.out, quiet=a.quiet)
+    if a.baseline:
+        json.dump(baseline_of(r), open(a.baseline, 'w'), indent=1, sort_keys=True)
+
+
+def baseline_of(r):
+    """what harness/props/C11.py compares a fresh extraction with"""
+    s, fn = r['summary'], r['functions']
+    return dict(
+        not_bracketed=sorted(s['not_bracketed']),
+        bracketed_with_effect=sorted(k for k, v in fn.items() if v['bracketed']),
+        writers=sorted(k for k, v in fn.items() if v['kind'] != 'propagated'),
+        leaky_public_entries=sorted(s['leaky_public_entries']),
+        callback_safe_used=sorted(s['callback_safe_used']),
+        manager_model_ok=s['manager_model_ok'],
+        functions_total=s['functions_total'])
+
+
+def extract(repo, out, quiet=True):
+    """parse `repo` (the mpmath package directory), write <out>/PrecSkel.lean and <out>/prec_skel.json,
+    return {'summary': …, 'functions': …} (the content of the JSON sidecar)"""
+    class A: pass
+    a = A(); a.repo, a.out, a.quiet = repo, out, quiet
     P = Program(a.repo)
     leaky = P.fixed_point()
     os.makedirs(a.out, exist_ok=True)
@@ -849,6 +876,7 @@ def main():
         for k in summary['not_bracketed_propagated']: print('   ', k)
         print('leaky PUBLIC entry points :')
         for k in leaky_public: print('   ', k)
+    return dict(summary=summary, functions=side)
 
 if __name__ == '__main__':
     main()
